@@ -46,6 +46,7 @@ type vfC18Inst struct {
 	conn     map[string]bool
 	handlers []*vfEvtHandler
 	router   string
+	variant  string
 	lastEv   string
 	lastPts  []vfChoicePoint
 }
@@ -59,7 +60,7 @@ func (in *vfC18Inst) LastDeviations() []string {
 // variant "queueless": the node never gets an outbound stream to peer b (opening it fails every time), so b is a
 // topic member known through its own stream only, without an outbound queue.
 func vfC18New(x *vfExec, router, variant string) *vfC18Inst {
-	in := &vfC18Inst{x: x, w: newVfWorld(), fakes: map[string]*vfFake{}, conn: map[string]bool{}, router: router}
+	in := &vfC18Inst{x: x, w: newVfWorld(), fakes: map[string]*vfFake{}, conn: map[string]bool{}, router: router, variant: variant}
 	n, err := vfNewNode(in.w, "N", router, WithMessageSignaturePolicy(StrictNoSign))
 	if err != nil {
 		panic(err)
@@ -104,6 +105,9 @@ func (in *vfC18Inst) Enabled() []string {
 	for _, name := range []string{"a", "b"} {
 		if in.conn[name] {
 			evs = append(evs, "sub:"+name, "unsub:"+name, "disc:"+name)
+			if name == "a" && in.variant == "partial" {
+				evs = append(evs, "subp:"+name)
+			}
 		} else {
 			evs = append(evs, "conn:"+name)
 		}
@@ -223,6 +227,12 @@ func (in *vfC18Inst) Apply(evFull string, judge bool) string {
 		in.fakes[arg].send(vfSubRPC("t", true))
 	case "unsub":
 		in.fakes[arg].send(vfSubRPC("t", false))
+	case "subp":
+		// the same announcement with the partial-message options set: membership is the same fact whatever the options
+		yes := true
+		rpc := vfSubRPC("t", true)
+		rpc.Subscriptions[0].RequestsPartial, rpc.Subscriptions[0].SupportsSendingPartial = &yes, &yes
+		in.fakes[arg].send(rpc)
 	case "disc":
 		in.w.disconnect(in.fakes[arg].ident.id, in.n.id())
 		in.conn[arg] = false
@@ -390,6 +400,9 @@ func vfC18Cfg(r *vfRun, router, variant string) *vfExploreCfg {
 		name += "-" + variant
 		depth-- // (the variants repeat the base exploration with one peer changed)
 	}
+	if variant == "partial" {
+		depth-- // (... or with one more event in the alphabet: peer a re-announcing itself with the partial-message options)
+	}
 	return &vfExploreCfg{
 		Scenario: map[string]any{"router": router, "variant": variant},
 		Name:     name,
@@ -408,6 +421,9 @@ func init() {
 						vfExplore(r, vfC18Cfg(r, router, variant))
 					}
 				}
+			}
+			if _, ok := r.nextCase(); ok {
+				vfExplore(r, vfC18Cfg(r, "flood", "partial"))
 			}
 		},
 		replay: func(r *vfRun, raw json.RawMessage) {
